@@ -1360,3 +1360,26 @@ def m_int_try_from(eng, st, fr, t, name, rname, args):
 
 for _k in ("core::convert::TryFrom::try_from", "core::convert::TryInto::try_into"):
     FOLD_MODELS[_k] = _or(m_int_try_from, FOLD_MODELS.get(_k))
+
+
+def m_array_slice_iter(eng, st, fr, t, name, rname, args):
+    """`.iter()` on a (fixed-size) array value whose elements are not bytes (a table of tuples, of enum values ...): the
+    elements by reference, in order"""
+    from . import itermodels as IM
+    v = eng.resolve(st, args[0])
+    base = None
+    n = 0
+    while isinstance(v, RefV) and n < 6:
+        base = v
+        v = eng.resolve(st, load(Loc(v.cell, v.path)))
+        n += 1
+    if isinstance(v, AggV) and v.kind == "array" and v.fields and all(isinstance(i, int) for i in v.fields):
+        items = []
+        for i in sorted(v.fields):
+            items.append(RefV(base.cell, tuple(base.path) + (i,)) if base is not None else RefV(Cell(v.fields[i], "elem%d" % i)))
+        return IM.mk(items)
+    return NotImplemented
+
+
+for _k in ("core::slice::iter", "core::slice::<impl [T]>::iter"):
+    FOLD_MODELS[_k] = _or(FOLD_MODELS.get(_k), m_array_slice_iter) if FOLD_MODELS.get(_k) else m_array_slice_iter
